@@ -3,11 +3,11 @@ use super::*;
 use crate::shim::SCell;
 
 /// region: 0 = any backlog, 1 = the backlog fits into one request (<= cap), 2 = the backlog exceeds the cap
-fn contiguous(nnew: usize, region: u8) {
+fn contiguous(nnew: usize, region: u8, maxlast: u64) {
     let last_before: u64 = kani::any();
     let next: u64 = kani::any();
     let cap: u64 = kani::any();
-    kani::assume(last_before <= 4 && next >= 1 && next <= last_before + 1 && cap >= 1 && cap <= 2);
+    kani::assume(last_before <= maxlast && next >= 1 && next <= last_before + 1 && cap >= 1 && cap <= 2);
     let exceeds = last_before >= next && last_before - next >= cap;
     match region {
         1 => kani::assume(!exceeds),
@@ -18,7 +18,7 @@ fn contiguous(nnew: usize, region: u8) {
     let mut peers: HashMap<u32, u64> = HashMap::new();
     peers.insert(1, last_before + 1); // self
     peers.insert(2, next);
-    let log = Arc::new(RangeLog { last: last_before, asked: SCell::new(0) });
+    let log = Arc::new(RangeLog { last_before, nnew: nnew as u64, asked: SCell::new(0) });
     let t: u64 = 2;
     let new_entries = crate::h_vec3(nnew, |k| Entry { index: last_before + 1 + k as u64, term: t, payload: 1 });
     let out = h.retrieve_to_be_synced_logs_for_peers(&new_entries, last_before, cap, &peers, &log);
@@ -44,15 +44,25 @@ fn contiguous(nnew: usize, region: u8) {
 #[kani::proof]
 #[kani::unwind(2)]
 pub fn c08_request_contiguous_no_new_entries() {
-    contiguous(0, 0)
+    contiguous(0, 0, 4)
 }
 #[kani::proof]
 #[kani::unwind(2)]
 pub fn c08_request_contiguous_new_entry_backlog_within_cap() {
-    contiguous(1, 1)
+    contiguous(1, 1, 4)
 }
 #[kani::proof]
 #[kani::unwind(2)]
 pub fn c08_request_contiguous_new_entry_backlog_exceeds_cap() {
-    contiguous(1, 2)
+    contiguous(1, 2, 4)
+}
+#[kani::proof]
+#[kani::unwind(2)]
+pub fn c08_request_contiguous_two_new_entries_backlog_within_cap() {
+    contiguous(2, 1, 4)
+}
+#[kani::proof]
+#[kani::unwind(2)]
+pub fn c08_request_contiguous_two_new_entries_short_log() {
+    contiguous(2, 1, 2)
 }
